@@ -22,6 +22,7 @@ compat.install()
 
 from xdsl.dialects import arith, builtin, func, linalg, llvm, memref, test  # noqa: E402
 from xdsl.dialects.builtin import IndexType, IntegerType, MemRefType, NoneAttr, StridedLayoutAttr  # noqa: E402
+from xdsl.ir import Block  # noqa: E402
 
 from snaxc.dialects import snax  # noqa: E402
 
@@ -399,7 +400,22 @@ def _generic(m: BufferMachine, op, vals, core):
     # an output whose block argument is used by the body (accumulation) is read as well
     n_in = len(op.inputs)
     acc_outs = [v for v, arg in zip(outs, op.body.block.args[n_in:]) if arg.uses]
-    for v in ins + acc_outs:
+    # buffers the body looks into directly (gather / look-up table: memref.load of a captured buffer) are read as well;
+    # a barrier inside the body is executed by the core that runs the kernel - and by nobody else
+    captured = []
+    for inner in op.body.walk():
+        if isinstance(inner, snax.ClusterSyncOp):
+            m.probe("barrier-inside-kernel-body")
+            if not m.seq:
+                yield ("barrier",)
+            core.epoch += 1
+            core.hist.append(("barrier",))
+        for o in inner.operands:
+            if isinstance(o.type, MemRefType) and not op.is_ancestor(o.owner if not isinstance(o.owner, Block) else o.owner.parent_op()) and o not in captured:
+                captured.append(o)
+    if captured:
+        m.probe("kernel-reads-captured-buffer")
+    for v in ins + acc_outs + [m.get(vals, o) for o in captured]:
         idxs = list(v.indices())
         for ch in m.chunks(idxs):
             for i in ch:
